@@ -58,4 +58,32 @@ func (r *runner) fixed() {
 		}
 	}
 	_ = o
+	// (d) furthest query, ShapeIndex target of two shapes, MaxError = StraightChordAngle, many results
+	// (6fd85ac: the error was tested against distance.zero() = 4, duplicate avoidance stayed off; the
+	// target's inner brute-force loop ranges over a Go map, so the query is repeated)
+	g3 := &geom{desc: "fixed:zigzag40", radius: 0.6, center: s2.PointFromLatLng(s2.LatLngFromDegrees(0, 20))}
+	var zz s2.Polyline
+	for i := 0; i <= 40; i++ {
+		lat := 20.0
+		if i%2 == 1 {
+			lat = -20
+		}
+		zz = append(zz, s2.PointFromLatLng(s2.LatLngFromDegrees(lat, float64(i))))
+	}
+	g3.add(&zz)
+	idx3 := g3.index()
+	tg2 := &geom{desc: "two far points"}
+	pa := s2.PointVector{s2.PointFromLatLng(s2.LatLngFromDegrees(0, 100))}
+	pb := s2.PointVector{s2.PointFromLatLng(s2.LatLngFromDegrees(0, -100))}
+	tg2.add(&pa)
+	tg2.add(&pb)
+	for _, far := range []bool{true, false} {
+		t3 := &tgt{kind: "index", far: far, tg: tg2, tidx: tg2.index(), desc: "index{two far one-point shapes}"}
+		for rep := 0; rep < 6; rep++ {
+			r.runPairWith(g3, idx3, t3, 0, false, func(all []cand) []qopts {
+				return []qopts{{k: 1000, maxErr: s1.StraightChordAngle, interiors: true}, {k: 0, maxErr: chordOf(1.0), interiors: true},
+					{k: 5, maxErr: s1.StraightChordAngle, interiors: true}}
+			})
+		}
+	}
 }
